@@ -35,6 +35,9 @@ FortNums  == {"2", "0.5", "0.1", "3"}
 FortF1    == {"exp", "log", "abs"}
 PairF1    == {"exp", "log", "abs", "np.sqrt"}
 PairF2    == {"max", "min"}
+NsF1      == {"vf.exp"}
+NsF2      == {"vf.max", "max"}
+SameForms == {"line", "fence", "same"}
 MaxOnly   == {"max"}
 
 (* sharding: the first two tokens of the first statement decide the shard *)
